@@ -3,7 +3,7 @@ from __future__ import annotations
 
 import numpy as np
 
-from .. import hlib
+from .. import hlib, symx
 from ..hlib import fm
 from finam.errors import FinamNoDataError, FinamTimeError
 from finam.sdk.output import Output
@@ -108,6 +108,105 @@ def h_events(ctx):
                       {"sig": "grow", "retained": len(real.data), "newer": newer})
 
 
+def h_inductive(ctx):
+    """One event from an ARBITRARY state satisfying the representation invariant of the history.
+
+    State: retained publications t_0 < .. < t_{m-1}; per consumer the last request L_j or 'never
+    pulled'; a flag 'something was dropped before' with a ghost time g < t_0 standing for the newest
+    dropped publication.  Invariant (Inv):
+      I1  times strictly increase;            I2  every L_j <= t_{m-1};
+      I3  if some consumer never pulled: nothing was dropped;
+      I4  if all pulled: t_0 <= min L  (when something was dropped)  and  (m == 1 or t_1 > min L).
+    Inv holds after the first publication and -- shown here for every event -- is preserved; with it
+    every pull equals the pull on the unlimited history and the retained length is bounded."""
+    n = ctx.params["consumers"]
+    hlib.reset_finam_state()
+    base = ctx.dt("t0")
+    out = Output(name="out", info=fm.Info(time=base, grid=fm.NoGrid(), units="m"))
+    ends = _wire(out, ["direct"] * n)
+    m = ctx.choice("retained", ctx.params["max_retained"]) + 1
+    times = [base]
+    for i in range(1, m):
+        times.append(times[-1] + ctx.td(f"g{i}", lo_us=1))
+    out.push_data(np.array(0.0), times[0])  # go through the real first publication, then inject
+    out.data = [(t, fm.UNITS.Quantity(np.array([float(i)]), "m")) for i, t in enumerate(times)]
+    out._time = times[-1]
+    pulled = [ctx.flag(f"pulled{j}") for j in range(n)]
+    last = []
+    for j in range(n):
+        if pulled[j]:
+            L = ctx.dt(f"L{j}")
+            ctx.assume(L <= times[-1])  # I2
+            last.append(L)
+        else:
+            last.append(None)
+    allp = all(pulled)
+    dropped = ctx.flag("dropped") if allp else False  # I3
+    regs = list(out._connected_inputs.keys())
+    for j, inp in enumerate(ends):
+        out._connected_inputs[inp] = last[j]
+    if allp:
+        tmin = last[0]
+        for x in last[1:]:
+            tmin = x if bool(x < tmin) else tmin
+        if dropped:
+            ctx.assume(times[0] <= tmin)  # I4a
+        else:
+            # nothing dropped so far although everybody pulled: clearing found nothing to drop
+            pass
+        if m > 1:
+            ctx.assume(times[1] > tmin)  # I4b
+    ctx.cover("state")
+    # ---- one arbitrary event ----
+    ev = ctx.choice("event", 1 + n)
+    if ev == 0:
+        t = times[-1] + ctx.td("g_new", lo_us=1)
+        out.push_data(np.array(float(m)), t)
+        times = times + [t]
+        ctx.cover("publish")
+    else:
+        j = ev - 1
+        r = ctx.dt("r")
+        if last[j] is not None:
+            ctx.assume(r >= last[j])
+        res = _pull(ends[j], r)
+        ctx.log("pull", [res[0], res[1]])
+        ctx.cover("pull:" + res[0])
+        inside_all = (r <= times[-1]) & (r >= times[0])
+        if res[0] == "time-error":
+            # refused: must be outside the range of the UNLIMITED history; with dropped entries the
+            # unlimited history starts before t_0, so a refusal below t_0 would be a loss
+            ctx.check(r > times[-1] if dropped else symx.neg(inside_all), "refused-although-history-had-it",
+                      {"sig": "inductive"})
+        else:
+            ctx.check(inside_all, "served-outside-range", {"sig": "inductive"})
+            i = int(res[1])
+            for k, tk in enumerate(times):
+                if k != i:
+                    ctx.check(abs(r - times[i]) <= abs(r - tk), "not-nearest", {"sig": "inductive"})
+            last[j] = r
+    # ---- invariant and bound in the post-state ----
+    post = [t for t, _ in out.data]
+    ctx.check(len(post) >= 1, "history-empty")
+    for a, b in zip(post, post[1:]):
+        ctx.check(a < b, "inv-times-increasing")
+    regs = [out._connected_inputs[inp] for inp in ends]
+    for x in regs:
+        if x is not None:
+            ctx.check(x <= post[-1], "inv-request-beyond-newest")
+    if all(x is not None for x in regs):
+        tmin = regs[0]
+        for x in regs[1:]:
+            tmin = x if bool(x < tmin) else tmin
+        removed = len(post) < len(times)
+        if dropped or removed:
+            ctx.check(post[0] <= tmin, "inv-dropped-something-still-needed", {"sig": "inductive"})
+        if len(post) > 1:
+            ctx.check(post[1] > tmin, "inv-history-longer-than-needed", {"sig": "inductive"})
+    else:
+        ctx.check(len(post) == len(times), "dropped-before-every-consumer-pulled", {"sig": "inductive"})
+
+
 EXPLANATION = (
     "Bounded symbolic execution (symx proxies + z3) of the real Output.push_data/get_data/_interpolate/_clear_data "
     "(through Input.pull_data and the real adapters) over symbolic event sequences: each event is chosen by a "
@@ -115,9 +214,16 @@ EXPLANATION = (
     "times are unbounded integer-microsecond variables. Differential oracle: a twin output wired identically whose "
     "_clear_data never discards must give the same publication tag or the same error class on every pull (a feasible "
     "path where they differ is a violation); retention bound: once all consumers have pulled, len(history) <= 1 + "
-    "#publications newer than the slowest consumer's last request."
+    "#publications newer than the slowest consumer's last request. "
+    "The 'inductive' families extend this to runs of any length: from an ARBITRARY symbolic state of the real Output "
+    "(retained times, per-consumer last requests, 'something was dropped' ghost) that satisfies an explicit "
+    "representation invariant, one arbitrary event is executed on the real code; z3 proves the served publication is "
+    "the nearest, that a refusal is never due to dropped history, and that the invariant (which contains the length "
+    "bound) holds again."
 )
-ASSUMPTIONS = ["per-consumer request times are non-decreasing (documented pull discipline)",
+ASSUMPTIONS = ["inductive families: the invariant I1-I4 documented in h_inductive characterises reachable states "
+               "(it holds after the first publication and is re-proved after every event)",
+               "per-consumer request times are non-decreasing (documented pull discipline)",
                "first publication happens before the first pull"]
 
 
@@ -143,4 +249,12 @@ def families(tier):
                 bounds=f"consumers {spec}; every event sequence of length {L} (first event is a publication); "
                        f"gaps >= 1 us, request times arbitrary but non-decreasing per consumer",
                 must_cover=["pull:ok", "pull:time-error", "all-pulled"]))
+    for n in ((1, 2) if q else (1, 2, 3, 4)):
+        fams.append(dict(
+            name=f"inductive:{n}_consumers", ref="vf.props.c09:h_inductive",
+            params={"consumers": n, "max_retained": 3 if q else 4},
+            bounds=f"{n} direct consumer(s); ONE event (publish / pull by any consumer) from an arbitrary state with "
+                   f"1..{3 if q else 4} retained publications satisfying the history invariant; all times symbolic; no bound "
+                   f"on the length of the run so far",
+            must_cover=["state", "publish", "pull:ok", "pull:time-error"]))
     return fams
